@@ -283,3 +283,32 @@ impl Interpreter {
         self.rng = Rng::new(seed);
     }
 }
+
+#[cfg(feature = "verif-hooks")]
+impl Interpreter {
+    /// Read-only canonical snapshot of the whole interpreter (see `verif::VerifState`).
+    pub fn verif_snapshot(&self) -> crate::verif::VerifState {
+        let mut snapshot = crate::verif::VerifState {
+            state: format!("{:?}", self.state),
+            pending_input: self.input.clone(),
+            untaken_output: self.output.len(),
+            lines: vec![],
+            sorted_index_keys: vec![],
+            immediate_line: vec![],
+            location_line: None,
+            location_token_index: 0,
+            breakpoint: None,
+            stack: vec![],
+            loops: vec![],
+            data_cursor: None,
+            functions: vec![],
+            rng_state: self.rng.verif_state(),
+            variables: self.variables.verif_entries(),
+            arrays: self.arrays.verif_entries(),
+            enable_warnings: self.enable_warnings,
+            enable_tracing: self.enable_tracing,
+        };
+        self.program.verif_fill(&mut snapshot);
+        snapshot
+    }
+}
